@@ -362,6 +362,12 @@ def check_rel(case, stats=None):
         exp = label_at(tv, pos) if ca_table else ""
         if tl[0] != "ok" or tl[1] != exp:
             fails.append(fail("tab_label", part=k, got=tl[1:], expected=exp))
+        # tab_alias: the alias of the table element (CA sub-variable), '' otherwise (a single-edit mutant
+        # that read all_elements instead of valid_elements survived the suite and every check)
+        ta = impl.get(p, "tab_alias")
+        exp = (tv.items[pos].get("alias") if ca_table else "")
+        if ta[0] != "ok" or ta[1] != exp:
+            fails.append(fail("tab_alias", part=k, got=ta[1:], expected=exp))
         if stats is not None:
             stats["attributes_compared"] = stats.get("attributes_compared", 0) + len(u.public_names(p))
     return fails
@@ -445,6 +451,9 @@ def check_ca0(case, stats=None):
             tl = impl.get(p, "tab_label")
             if tl[0] != "ok" or tl[1] != ca.items[pos]["name"]:
                 fails.append(fail("tab_label", part=k, cube=j, got=tl[1:], expected=ca.items[pos]["name"]))
+            ta = impl.get(p, "tab_alias")
+            if ta[0] != "ok" or ta[1] != ca.items[pos].get("alias"):
+                fails.append(fail("tab_alias", part=k, cube=j, got=ta[1:], expected=ca.items[pos].get("alias")))
     return fails
 
 
